@@ -58,6 +58,11 @@ def bsearchBy (len : Nat) (cmpAt : Nat → Ordering) : BRes :=
 def bsearch (s : List Nat) (key : Nat) : BRes :=
   bsearchBy s.length (fun i => compare (s.getD i 0) key)
 
+/-- `bsearch` on an array: the same `bsearchBy`, with a constant-time accessor (used by the
+driver on large inputs; `bsearchA_eq` in `Proofs/Sfc.lean`). -/
+def bsearchA (s : Array Nat) (key : Nat) : BRes :=
+  bsearchBy s.size (fun i => compare (s.getD i 0) key)
+
 /-! ## the final sort of `weighted_quantiles` -/
 
 def insertAsc (x : Nat) : List Nat → List Nat
@@ -83,6 +88,11 @@ refinement loop of `weighted_quantiles` ended with (any list), its last two line
 it, and the ids are looked up by binary search. -/
 def partitionIndexed (idxs positions : List Nat) : List Nat :=
   assign idxs (sortAsc positions)
+
+/-- `partitionIndexed` with the array-backed lookup (equal: `partitionIndexedA_eq`). -/
+def partitionIndexedA (idxs positions : List Nat) : List Nat :=
+  let splits := (sortAsc positions).toArray
+  idxs.map (fun x => (bsearchA splits x).idx)
 
 /-! ### the refinement loop of `weighted_quantiles` (`P = u64`, `W = f64`)
 
@@ -222,6 +232,10 @@ def chunkStart (n k c : Nat) : Nat := c * (n / k) + min c (n % k)
 def writeIds (n k : Nat) (perm : List Nat) (p0 : List Nat) : List Nat :=
   perm.zipIdx.foldl (fun acc (x : Nat × Nat) => acc.set x.1 (chunkId n k x.2)) p0
 
+/-- `writeIds` on an array (constant-time writes; `writeIdsA_toList`). -/
+def writeIdsA (n k : Nat) (perm : List Nat) (p0 : Array Nat) : Array Nat :=
+  perm.zipIdx.foldl (fun acc (x : Nat × Nat) => acc.setIfInBounds x.1 (chunkId n k x.2)) p0
+
 /-- `multi_jagged.rs: split_at_mut_many`.  `none` = panic (`*pos - drained_count`
 underflows, or `split_at_mut` with `mid > len`). -/
 def splitAtMany {α} (rest : List α) (drained : Nat) : List Nat → Option (List (List α))
@@ -249,6 +263,12 @@ def insertByKey (key : Nat → Nat) (x : Nat) : List Nat → List Nat
 def sortByKey (key : Nat → Nat) : List Nat → List Nat
   | [] => []
   | x :: xs => insertByKey key x (sortByKey key xs)
+
+/-- Merge sort by key (stable): another admissible instance, `O(n log n)` – the one the
+driver uses (`mergeByKey_spec`); outputs are compared on observables that do not depend
+on the order of equal keys. -/
+def mergeByKey (key : Nat → Nat) (l : List Nat) : List Nat :=
+  l.mergeSort (fun a b => decide (key a ≤ key b))
 
 /-- `z_curve.rs: z_curve_partition_recurse`.  `region path i` is
 `mbr.region(points[i]).unwrap_or(0)` for the box reached from the root by the quadrant
@@ -294,7 +314,7 @@ def partition (dim order k : Nat) (sortBy : (Nat → Nat) → List Nat → List 
     | none => .panic "z_curve_partition_recurse"
     | some perm =>
       if k = 0 then .panic "attempt to divide by zero"
-      else .ok (writeIds n k perm p0)
+      else .ok (writeIdsA n k perm p0.toArray).toList
 
 end ZCurve
 
